@@ -350,16 +350,48 @@ def check(P, R):
     R.ob('C02.d', hd, raise404[0] if raise404 else hd.node, ok, text='404 -> raise HTTPError(status, body)', detail='' if ok else '404 branch malformed',
          nontrivial=False)
 
-    # route objects are tested by truthiness (`if not route`, `if route_`, `if pnode[DATA]`): the classes must be unconditionally truthy
-    for cfq in (f'{RR}:Route', f'{RR}:RouteMethod'):
-        c = P.cls(cfq)
-        bad = [m for k in P.mro(c) for m in ('__len__', '__bool__') if m in k.methods]
-        R.ob('C02.d', c.fq, None, not bad, text=f'{c.name} defines neither __len__ nor __bool__', detail='' if not bad else
-             f'{c.name} defines {bad}: an instance can be falsy (e.g. a route whose methods were all removed), and the router\'s `if not route` / '
-             f'`if route_` / `if pnode[DATA]` tests then treat a registered route as absent: 404 instead of 405, or a duplicate route',
-             why='405 for a path that matches a route; never 404', key_extra=c.name)
+    check_truthy_classes(P, R, 'C02.d', '405 for a path that matches a route; never 404')
+    # who may answer 405: the router's verdict only (resolve() builds it, handler() raises what it was given)
+    n405_sites = 0
+    for fx in P.all_funcs():
+        if fx.module.name.endswith('server_adapters') or isinstance(fx.node, ast.Lambda):
+            continue
+        for c in walk_shallow(fx.node):
+            site = None
+            if isinstance(c, ast.Call) and (dotted(c.func) or '').split('.')[-1] in ('HTTPError', 'HTTPResponse', 'abort'):
+                vals = list(c.args[:1]) + [k.value for k in c.keywords if k.arg in ('status', 'code')]
+                if any(is_const(v, 405) or (isinstance(v, ast.Constant) and isinstance(v.value, str) and v.value.startswith('405')) for v in vals):
+                    site = c
+            elif isinstance(c, ast.Assign) and any(isinstance(t, ast.Attribute) and t.attr in ('status', '_status_code') for t in c.targets) and \
+                    (is_const(c.value, 405) or (isinstance(c.value, ast.Constant) and isinstance(c.value.value, str) and c.value.value.startswith('405'))):
+                site = c
+            if site is not None:
+                n405_sites += 1
+                R.ob('C02.d', fx, site, False, text=f'`{short(site)}` in {fx.qual}: 405 decided outside the router', detail=
+                     f'`{short(site)}` answers 405 without the router having matched the path and found the method missing: a path that matches no route gets 405 '
+                     f'instead of 404, a route\'s ANY handler is not tried for that verb, and the Allow header does not list the methods registered on the route',
+                     why='405 only for a path that matches a route, with exactly that route\'s methods in Allow', key_extra='who-405')
+    R.ob('C02.d', rs, None, True, text=f'sites that build a 405 outside RadiRouter.resolve / Ombott.handler: {n405_sites} (each reported above)', nontrivial=False)
 
     # ---- e
+    # the public view of a route's method table is a copy: the table itself handed out is edited behind the router's back, and
+    # `for name in route.methods: route.remove_method(name)` (removal of every method, one by one) dies on the first removal
+    rc_ = P.cls(f'{RR}:Route')
+    for pname_, pm_ in rc_.methods.items():
+        if not any(dotted(d_) == 'property' for d_ in pm_.node.decorator_list):
+            continue
+        for (v_, at_, rst_) in T.result_values(pm_):
+            vx_ = T.expand(pm_, v_, at_) if v_ is not None else None
+            if vx_ is not None and dotted(vx_) == 'self._methods':
+                R.ob('C02.e', pm_, rst_, False, text=f'Route.{pname_} hands out a copy of the method table', detail=
+                     f'Route.{pname_} returns `self._methods` itself: a caller that edits the returned mapping de-registers methods without the router knowing, and removing '
+                     f'the methods one by one while iterating over it (`for name in route.{pname_}: route.remove_method(name)`) raises "dictionary changed size during '
+                     f'iteration" after the first removal - the remaining methods stay registered',
+                     why='after per-method removal the route answers with exactly the methods left', key_extra='table-handed-out')
+            elif vx_ is not None and any(isinstance(x_, ast.Attribute) and dotted(x_) == 'self._methods' for x_ in ast.walk(vx_)):
+                R.ob('C02.e', pm_, rst_, True, text=f'Route.{pname_} hands out a copy of the method table')
+    from . import c11 as _c11
+    _c11.check_fresh_route(P, R, 'C02.e', 'after removal and re-registration the route answers with exactly the methods registered last')
     for r in rets:
         rn = g.node_of_stmt(r)[0]
         xv = T.expand(rs, r.value, rn)
@@ -370,6 +402,18 @@ def check(P, R):
         ok, det = allow_from_table(P, rs, third, rn, route_name)
         R.ob('C02.e', rs, r, ok, text=f'Allow = {short(third)}', detail=det,
              why='Allow lists exactly the methods registered on that route')
+
+
+def check_truthy_classes(P, R, rid, why):
+    """route objects are tested by truthiness (`if not route`, `if route_`, `if pnode[DATA]`): the classes must be unconditionally truthy"""
+    for cfq in (f'{RR}:Route', f'{RR}:RouteMethod'):
+        c = P.cls(cfq)
+        bad = [m for k in P.mro(c) for m in ('__len__', '__bool__') if m in k.methods]
+        R.ob(rid, c.fq, None, not bad, text=f'{c.name} defines neither __len__ nor __bool__', detail='' if not bad else
+             f'{c.name} defines {bad}: an instance can be falsy (e.g. a route whose methods were all removed), and the router\'s `if not route` / '
+             f'`if route_` / `if pnode[DATA]` tests then treat a registered route as absent: the path falls through to a wildcard sibling or to 404 instead of '
+             f'selecting the registered rule (405), or the rule is registered twice',
+             why=why, key_extra=c.name)
 
 
 def check_candidates_loop(R, gi, lp, mp, recv):
